@@ -54,6 +54,14 @@ CHECKS = {
    text="Handle of every inode type placed at chosen descriptor numbers (0 included), reopened with generated flags after a generated history of renames/replacements/unlinks, on normal and over-mounted host /proc, as root and as an unprivileged user, under five kernel configurations, via Rust and C API; result must be the handle's inode with the kernel's own flags/errno (reference: the kernel's open of the same inode through a pristine fd link), ELOOP for links, refusal of creation flags, errors only from visible over-mounts.",
    note="The handle descriptor is made by the harness and wrapped with Handle::from_fd; visibility of over-mounts is derived from the caller's ability to create a private procfs and the kernel configuration.",
    technique="property-based testing with history generation and a kernel reference open"),
+ "C08": dict(level="exploration", ref="DESIGN.md §3 C08",
+   text="The full product of the quantifier (810 combinations of privilege x /proc mount options x constructor x base x sub-path kind x RLIMIT_NOFILE) is enumerated; each call runs under the observing gate, which counts procfs handle creations, procfs-root acquisitions, open descriptors and syscalls and unwinds runaway calls; missing paths must report ENOENT.",
+   note="Needs CAP_SYS_ADMIN/CAP_SETUID; handle creations are counted by their fsopen(2) attempt (running kernel has fsopen).",
+   technique="exhaustive enumeration of a finite configuration product with resource counters from a seccomp observer"),
+ "C15": dict(level="exploration", ref="DESIGN.md §3 C15",
+   text="All 2520 combinations of sysctl value, directory mode/owner, link owner, caller (incl. real != effective uid) and link position are enumerated with the real fs.protected_symlinks set; the emulated backend and the openat2 backend are compared with the kernel's own openat2(RESOLVE_IN_ROOT) issued as the same user on the same tree.",
+   note="Temporarily changes the system-wide sysctl (lock file, restored by guard / signal handler / next run); finite space, enumerated completely.",
+   technique="exhaustive differential testing against the kernel over a finite parameter product"),
 }
 NOT_YET = {}
 ALL = ["C%02d" % i for i in range(1, 19)]
